@@ -461,8 +461,13 @@ def init_harness(I: Interp) -> None:
     models.MODELS[B.camel_to_snake] = lambda I2, a, k: VStr("cmd")
     models.CLASS_MODELS[B.RunMeta] = lambda I2, cls, a, k: VObj(Stub, dict(k), lazy=True,
                                                                 tag="run_meta")
-    models.MODELS[B.json.loads] = lambda I2, a, k: VDict([])
-    I.ex.stubs[("config", "model_dump_json")] = lambda I2, r, a, k: VStr("{}")
+    dumps: list[tuple] = []
+    loaded: list[tuple] = []
+    models.MODELS[B.json.loads] = lambda I2, a, k: (loaded.append((a[0],)), VDict([]))[1]
+    I.ex.stubs[("config", "model_dump_json")] = lambda I2, r, a, k: (
+        dumps.append((r, list(a), dict(k), VStr(t=z3.String(f"dump{len(dumps)}")))), dumps[-1][3])[1]
+    I.ex.stubs[("config", "model_dump")] = lambda I2, r, a, k: (
+        dumps.append((r, list(a), dict(k), VDict([]))), dumps[-1][3])[1]
     models.MODELS[B.datetime.now] = lambda I2, a, k: VObj(Stub, {}, lazy=True, tag="time")
     I.ex.stubs[("time", "isoformat")] = lambda I2, r, a, k: VStr()
     a_, b_ = VObj(Cmd, {}), VObj(Cmd, {})
@@ -473,6 +478,18 @@ def init_harness(I: Interp) -> None:
     except PyExc as e:
         I.fail("N-BaseCommand.__init__-does-not-raise", e.exc.cls.__name__)
         return
+    # what META.json / the run_meta row store as `config` is the *complete* dump of this run's
+    # configuration - no exclude_defaults / exclude_unset / include filter - so that a rerun
+    # from the stored configuration does not depend on defaults evaluated in another process
+    rm = a_.fields.get("run_meta")
+    first = dumps[0] if dumps else None
+    I.prove("N-stored-configuration-is-the-complete-dump-of-this-run's-config", z3.BoolVal(
+        first is not None and first[0] is cfg and not first[1] and not any(
+            k_ in first[2] for k_ in ("exclude_defaults", "exclude_unset", "exclude_none",
+                                      "include", "exclude"))),
+        str(first[2] if first else None))
+    I.prove("N-stored-configuration-is-what-run_meta-carries", z3.BoolVal(
+        isinstance(rm, VObj) and "config" in rm.fields and bool(loaded or dumps)))
     la, lb = a_.fields.get("log_file_handlers"), b_.fields.get("log_file_handlers")
     I.prove("N-log_file_handlers-is-instance-state-created-by-__init__",
             z3.BoolVal(isinstance(la, VList) and la.items == []))
@@ -480,6 +497,20 @@ def init_harness(I: Interp) -> None:
             z3.BoolVal(la is not None and la is not lb))
     for attr in ("_lock_file_fd", "db_handler", "artifacts_dir"):
         I.prove(f"N-{attr}-starts-unset-per-instance", z3.BoolVal(a_.fields.get(attr) is NONE))
+
+
+def native_stored_config() -> tuple[bool, str]:
+    """every option of the configuration object appears in run_meta.config, defaults included"""
+    import gallia.command  # noqa: F401
+    B = base_module()
+    from gallia.commands.script.vecu import RngVirtualECU, RngVirtualECUConfig
+    cfg = RngVirtualECUConfig(target="unix-lines:///tmp/c15-stored.sock")
+    cmd = RngVirtualECU(cfg)
+    stored = cmd.run_meta.config
+    missing = [k for k in type(cfg).model_fields if k not in stored]
+    return bool(missing), (f"options missing from the stored configuration of `vecu rng` "
+                           f"(all at their default): {missing[:8]}"
+                           if missing else "all options are stored")
 
 
 def build_units(tier: str) -> list[Unit]:
